@@ -4,6 +4,7 @@ package c16
 // the bytes of a native fuzz input), the rapid properties and the fuzz targets.
 
 import (
+	"bytes"
 	"encoding/binary"
 	"fmt"
 	"math"
@@ -175,9 +176,9 @@ func pattern(n int, start byte) []byte {
 // genReq draws a requested length relative to what is held. Ordered so that
 // shrinking (towards index 0) moves to harmless requests.
 func genReq(s source, held int) int {
-	w := []int{6, 3, 3, 3, 3, 3, 2, 2, 2, 1, 1, 1, 1, 1}
+	w := []int{6, 3, 3, 3, 3, 3, 2, 2, 2, 1, 1, 1, 1, 1, 1}
 	if !allocBounded {
-		w = w[:len(w)-2]
+		w = w[:len(w)-3]
 	}
 	switch pick(s, "reqkind", w) {
 	case 0:
@@ -203,11 +204,13 @@ func genReq(s source, held int) int {
 	case 10:
 		return 1 << 62
 	case 11:
-		return 1 << 48
+		return 1 << 49 // makeslice panics above 2^48 (recoverable); 2^48 itself is attempted and kills the process
 	case 12:
 		return 1 << 31
-	default:
+	case 13:
 		return 1 << 40
+	default:
+		return 1 << 48
 	}
 }
 
@@ -257,7 +260,7 @@ func genOp(s source, w *world, g *genState) op {
 	o := genOp1(s, w, g)
 	if !allocBounded && (o.kind == opGetNextBlock || o.kind == opGetNextBlockAsContainer) {
 		m := w.pool[o.tgt].m
-		if v, k, _, st := refDecode(m); st == refOK && v > uint64(len(m)-k)+(1<<20) && v < 1<<48 {
+		if v, k, _, st := refDecode(m); st == refOK && v > uint64(len(m)-k)+(1<<20) && v <= 1<<48 {
 			o.kind = opN64 // see allocBounded: this block read would kill the process
 		}
 	}
@@ -442,7 +445,7 @@ func TestPropWireRead(t *testing.T) {
 			l, cls = uint64(len(body)+1+s.choice("over", 3)), "prefix_slightly_too_long"
 		case 3:
 			l, cls = genU64(s), "prefix_any_number"
-			if !allocBounded && l > uint64(len(body))+(1<<20) && l < 1<<48 {
+			if !allocBounded && l > uint64(len(body))+(1<<20) && l <= 1<<48 {
 				l |= 1 << 50 // see allocBounded
 			}
 		case 4:
@@ -529,6 +532,8 @@ func FuzzHistory(f *testing.F) {
 	f.Add([]byte{7, 10, 0, 0, 3, 4, 1, 2, 3, 4, 21, 0, 21, 0, 13, 0, 9, 19, 0, 10})
 	f.Add([]byte{1, 25, 19, 0, 0, 13, 0, 2, 16, 0, 9, 22, 0, 26, 0})
 	f.Add([]byte{4, 40, 1, 0, 6, 1, 0, 6, 1, 0, 6, 1, 0, 6, 1, 0, 6, 1, 0, 6, 11, 0, 3, 3, 1, 2, 3, 14, 0})
+	// thirty times AppendContainer(c0) on c0 (found by the fuzzer: unbounded this doubles the compartment list until the process dies, see growthBounded)
+	f.Add(append([]byte{0xff, 0xff, 0x00, 0x10, 0x00}, append(bytes.Repeat([]byte{0x20}, 32), 0)...))
 	f.Fuzz(func(t *testing.T, in []byte) {
 		if len(in) > 600 {
 			return
@@ -554,7 +559,7 @@ func FuzzWire(f *testing.F) {
 		}
 		sel, wire := int(in[0]), in[1:]
 		if !allocBounded {
-			if v, k, _, st := refDecode(wire); st == refOK && v > uint64(len(wire)-k)+(1<<20) && v < 1<<48 {
+			if v, k, _, st := refDecode(wire); st == refOK && v > uint64(len(wire)-k)+(1<<20) && v <= 1<<48 {
 				return
 			}
 		}
